@@ -73,6 +73,10 @@ func (t *RetryTransaction) Proceed(state interface{}, data interface{}) {
 	t.retryNumMutex.Lock()
 	defer t.retryNumMutex.Unlock()
 
+	// A finished transaction must not be revived.
+	if t.isDone() {
+		return
+	}
 	t.State = state
 	t.Data = data
 	t.retryNum = 0
@@ -94,6 +98,9 @@ func (t *RetryTransaction) timeout() {
 	t.retryNumMutex.Lock()
 	defer t.retryNumMutex.Unlock()
 
+	if t.isDone() {
+		return
+	}
 	t.retryNum++
 	if t.retryNum > t.retryCount {
 		t.Fail(ErrNoMoreRetries)
@@ -101,6 +108,7 @@ func (t *RetryTransaction) timeout() {
 	}
 	if err := t.retryCallback(t.Data); err != nil {
 		t.Fail(err)
+		return
 	}
 	t.restartTimer()
 }
